@@ -65,6 +65,8 @@ impl Base {
             1 => h1,
             2 => (h1 * 2u32) % n,
             3 => (h1 + n - 1u32) % n,
+            // 4: the negative of the key "as given"
+            4 => n - (from_be(&self.ke) % (n - 1u32) + 1u32),
             _ => from_be(&self.ke) % (n - 1u32) + 1u32,
         };
         if k == BigUint::from(0u32) { BigUint::one() } else { k }
@@ -126,6 +128,8 @@ pub enum Tamper {
     C1YPlusP,
     /// a multi-byte alteration (see props/multi.rs) of region 0: C3, 1: C2, 2: the x coordinate of C1, 3: everything after the prefix byte
     Multi(u8, Multi),
+    /// the ciphertext is untouched but the recipient uses the key -de (same x coordinate as de)
+    NegatedKey,
 }
 
 #[derive(Serialize, Deserialize, Hash, Debug, Clone)]
@@ -216,6 +220,7 @@ pub fn check_tamper(c: &TCase) -> CaseResult {
             ct[33..65].copy_from_slice(&to32(&y));
             class = "C1-x+p";
         }
+        Tamper::NegatedKey => class = "negated-key",
         Tamper::Multi(region, m) => {
             let n = ct.len();
             let (lo, hi, name) = match region % 4 {
@@ -231,8 +236,10 @@ pub fn check_tamper(c: &TCase) -> CaseResult {
         }
     }
     // the reference decryptor uses the key of the identity the caller names
-    let de_for = if matches!(c.tamper, Tamper::OtherIdentity) { de_ref.clone() } else { de_ref };
+    let negated = matches!(c.tamper, Tamper::NegatedKey);
+    let de_for = if negated { pr.g2.neg(&de_ref) } else { de_ref };
     let want = r9::decrypt(&de_for, &id, &ct);
+    let key = if negated { gm_sm9::key::Sm9EncKey { de: key.de.point_neg(), ..key } } else { key };
     let got = outcome(|| key.decrypt(&id, &ct));
     match (&got, &want) {
         (Outcome::Panic(p), _) => return fail(format!("entry=Sm9EncKey::decrypt input={} outcome=panic", class), format!("tamper={:?} |ct|={}: {}", c.tamper, ct.len(), p)),
@@ -309,6 +316,7 @@ pub fn tamper_strategy() -> impl Strategy<Value = Tamper> {
         2 => any::<u8>().prop_map(Tamper::Prefix),
         1 => Just(Tamper::C1XPlusP),
         1 => Just(Tamper::C1YPlusP),
+        1 => Just(Tamper::NegatedKey),
         1 => Just(Tamper::None),
         6 => (prop_oneof![3 => Just(0u8), 1 => Just(1u8), 1 => Just(2u8), 1 => Just(3u8)], multi::strategy()).prop_map(|(r, m)| Tamper::Multi(r, m)),
     ]
@@ -400,6 +408,31 @@ pub fn run(ctx: &Ctx) {
             }
             for j in 0..6u64 {
                 v.push(TCase { base: b.clone(), tamper: Tamper::C1OffCurveForged(j) });
+            }
+        }
+        v
+    }, check_tamper);
+
+    ctx.listed("related_key_sequences", "on one thread inside one case: decrypt with -de (must fail), then with de (must succeed), then -de again; encrypt + decrypt under ke, N-ke, ke, ke+1 — anything the library remembers between calls (memoised pairing values) is carried over", move || {
+        let mut v: Vec<Vec<TCase>> = Vec::new();
+        for b in fixed_bases(seed ^ 0x5e9, 3) {
+            v.push(vec![
+                TCase { base: b.clone(), tamper: Tamper::NegatedKey }, TCase { base: b.clone(), tamper: Tamper::None }, TCase { base: b.clone(), tamper: Tamper::NegatedKey },
+                TCase { base: b.clone(), tamper: Tamper::None }, TCase { base: b.clone(), tamper: Tamper::FlipBit(70 * 8) }, TCase { base: b.clone(), tamper: Tamper::NegatedKey },
+            ]);
+            let mut neg = b.clone();
+            neg.ke_rel = 4;
+            v.push(vec![TCase { base: b.clone(), tamper: Tamper::None }, TCase { base: neg.clone(), tamper: Tamper::None }, TCase { base: b.clone(), tamper: Tamper::None }, TCase { base: neg.clone(), tamper: Tamper::NegatedKey }, TCase { base: b.clone(), tamper: Tamper::NegatedKey }]);
+        }
+        v
+    }, |steps: &Vec<TCase>| seq(steps, |c| { check_tamper(c)?; if matches!(c.tamper, Tamper::None) { check_encrypt(&c.base) } else { pass(true, "") } }));
+
+    ctx.cold("cold_start_encrypt", "SM9 encrypt (r injected) as the first library operation of a fresh process", move || fixed_bases(seed ^ 0xc10d, 2), check_encrypt);
+    ctx.cold("cold_start_decrypt", "SM9 decrypt as the first library operation of a fresh process: untouched, C3 / C2 bit flips, a cancelling C3 alteration, another identity", move || {
+        let mut v = Vec::new();
+        for b in fixed_bases(seed ^ 0xc10e, 2) {
+            for t in [Tamper::None, Tamper::FlipBit(66 * 8), Tamper::FlipBit(98 * 8 + 1), Tamper::Multi(0, Multi::XorPair(0, 1, 1)), Tamper::OtherIdentity] {
+                v.push(TCase { base: b.clone(), tamper: t });
             }
         }
         v
